@@ -225,6 +225,14 @@ fn so2_sets(tier: &str) -> Vec<(String, SO2StateSpace, Vec<Scn<SO2State>>)> {
         narrow,
         vec![Scn { name: "free".into(), clearance: Rc::new(|_s: &SO2State| 1.0), start: SO2State::new(-0.9), goal: SO2State::new(1.4), goal_r: 0.05, feas: 1 }],
     ));
+    // an interval exactly pi wide, start and (exact) goal at its two ends: the two are antipodal, both arcs
+    // are shortest, and only the one through the interval stays inside the bounds
+    let half = SO2StateSpace::new(Some((-PI / 2.0, PI / 2.0))).unwrap();
+    out.push((
+        "so2-half".to_string(),
+        half,
+        vec![Scn { name: "end-to-end".into(), clearance: Rc::new(|_s: &SO2State| 1.0), start: SO2State::new(-PI / 2.0), goal: SO2State::new(PI / 2.0), goal_r: 0.0, feas: 1 }],
+    ));
     // interval wider than pi: the short arc between in-bounds states can leave the bounds
     let wide = SO2StateSpace::new(Some((-3.0, 3.0))).unwrap();
     out.push((
@@ -519,7 +527,8 @@ where
                     }
                     // a third same-seed instance on a slower clock (C07, timing independence)
                     {
-                        let cfg3 = RunCfg { tick_query: 1, ..RunCfg::default() };
+                        // (a query costs 1/37 of a tick: most iterations complete, deadlines fall at arbitrary points inside them)
+                        let cfg3 = RunCfg { query_ns: TICK_NS / 37, ..RunCfg::default() };
                         let recs3 = run_history(kind, &params0, space.clone(), &[mk_problem()], &calls, &cfg3);
                         let mut tids = HashMap::new();
                         if let (Some(a), Some(b)) = (vharness::timing::epochs(&recs, &mut tids), vharness::timing::epochs(&recs3, &mut tids)) {
